@@ -288,12 +288,14 @@ class GuardStates:
     LIMIT = 4000
 
     def __init__(self, cfg: CFG, call_kill: Callable[[Node], Set[str]] = None, edge_filter: Callable[[Edge], bool] = None, focus=None,
-                 marks: Callable[[Edge], Optional[str]] = None):
+                 marks: Callable[[Edge], Optional[str]] = None, nonnull_calls: Tuple[str, ...] = ()):
         self.cfg = cfg
         self.edge_filter = edge_filter
         # marks(e) -> name: a ghost fact (name, True) is added to every state that crosses edge e and is never killed -
         # "this path went through e", combined with the ordinary facts (so that infeasible continuations are pruned)
         self.marks = marks
+        # `x = <callee>(...)` for a callee named here leaves the fact `x is not None` (e.g. ContextVar.set returns a Token)
+        self.nonnull_calls = tuple(nonnull_calls)
         # focus: AST nodes the caller will ask about.  Only facts that read an access path also read by a test enclosing
         # (or sharing the innermost loop with) a focus node are tracked - a slice that keeps the disjunctive state small in
         # long functions (run()) without losing any fact such a query can use.
@@ -344,6 +346,12 @@ class GuardStates:
             return out
         if isinstance(cond, ast.UnaryOp) and isinstance(cond.op, ast.Not):
             return self._split_cond(cond.operand, not pol)
+        # `x is not None` is the negation of the atom `x is None` (same for != / not in): one atom, so that what an assignment
+        # established (`x is None`: False) decides the test
+        if isinstance(cond, ast.Compare) and len(cond.ops) == 1 and isinstance(cond.ops[0], (ast.IsNot, ast.NotEq, ast.NotIn)):
+            pos = {ast.IsNot: ast.Is, ast.NotEq: ast.Eq, ast.NotIn: ast.In}[type(cond.ops[0])]()
+            flipped = ast.copy_location(ast.Compare(left=cond.left, ops=[pos], comparators=cond.comparators), cond)
+            return [self._fact(flipped, not pol)]
         return [self._fact(cond, pol)]
 
     def _tracked(self, cond: ast.expr) -> bool:
@@ -373,6 +381,8 @@ class GuardStates:
             t, v = a.targets[0], a.value
         if _path(t) is not None and isinstance(v, (ast.JoinedStr, ast.List, ast.Dict, ast.Tuple, ast.Set, ast.ListComp, ast.DictComp, ast.SetComp)):
             # a freshly built string / container is not None
+            return self._fact(ast.parse(f"{_path(t)} is None", mode="eval").body, False)
+        if _path(t) is not None and isinstance(v, ast.Call) and self.nonnull_calls and ast.unparse(v.func) in self.nonnull_calls:
             return self._fact(ast.parse(f"{_path(t)} is None", mode="eval").body, False)
         if _path(t) is None or not isinstance(v, ast.Constant):
             return None
@@ -560,5 +570,5 @@ class GuardStates:
         return out
 
 
-def guard_states(cfg: CFG, call_kill=None, edge_filter=None, focus=None, marks=None) -> GuardStates:
-    return GuardStates(cfg, call_kill, edge_filter, focus, marks)
+def guard_states(cfg: CFG, call_kill=None, edge_filter=None, focus=None, marks=None, nonnull_calls=()) -> GuardStates:
+    return GuardStates(cfg, call_kill, edge_filter, focus, marks, nonnull_calls)
